@@ -19,6 +19,7 @@ What is proved (for all strings / names, no bound):
 import DW.Lemmas.Names
 import DW.Lemmas.GenDump
 import DW.Lemmas.GenDumpPy
+import DW.Lemmas.GenLoad
 import DW.Generated.Tables
 
 namespace DW.Props.C15
@@ -221,6 +222,33 @@ example : genCode (fun _ => true) gendumpWitness =
      "  if not _skip_0:\n    result.append(('x',asdict(o.x,dict_factory,hooks,config,cls_to_asdict)))\n" ++
      "  if o.extra != _default_1 and not _skip_1:\n    for k, v in o.extra.items():\n" ++
      "      result.append((k,asdict(v,dict_factory,hooks,config,cls_to_asdict)))\n  return dict_factory(result)").toList := by
+  decide +kernel
+
+/-! ### the generator of the default-engine `cls_fromdict`, for every class -/
+
+open DW.GenLoad in
+/-- **C15 (the load-function generator of the default engine, every class).**  Whatever the class looks like — `_pre_from_dict` or
+not, a CatchAll field with or without default, `raise_on_unknown_json_key`, any number of fields with JSON paths (required,
+defaulted or with a default_factory; any path parts; any field names, including the template's own variable names), every
+constructor field having a path or not, a tag key or a path's top-level key kept out of the catch-all — the body
+`load_func_for_dataclass` writes for `cls_fromdict` (`DW/Model/GenLoad.lean`, compared byte for byte with the library's output, its
+declared names with Python's `ast`, on every run) is well scoped on every control-flow path through its `if / elif / else`, `for`
+and `try / except` blocks: every name it reads is the parameter, a local definitely bound before (the `e` of an `except … as e`
+and the `field` bound by a literal assignment at the head of a `try` body included), a name of the closure the generator fills
+(`_default_<field>` among them), a global it is executed with, or a builtin — and none of those is shadowed by a local. -/
+theorem C15_genload_well_scoped (printable : Char → Bool) (g : LIn) : wellScoped printable g = true :=
+  wellScoped_all printable g
+
+open DW.GenLoad in
+/-- non-vacuity: the text the model writes for a class with a required path field, a CatchAll field and
+`raise_on_unknown_json_key` (first lines) -/
+example : ((renderList 1 (genBody (fun _ => true)
+      { catchAll := some ("rest".toList, false), raiseOnUnknown := true,
+        paths := [{ field := "r".toList, path := [.str "k".toList] }], knownKeys := true })).take 6).map String.ofList =
+    ["  init_kwargs = {}", "  catch_all = {}", "  try:",
+     "    field='r'; init_kwargs[field] = field_to_parser[field](safe_get(o, ('k',)))",
+     "  except ParseError as e:",
+     "    e.class_name, e.field_name, e.json_object, e.fields = cls, field, o, cls_fields"] := by
   decide +kernel
 
 end DW.Props.C15
